@@ -428,7 +428,12 @@ func runProp(cfg runConfig) int {
 				}
 			}
 			if p.Oracle != nil {
-				if cl := p.Oracle(c.Line, implOut[i]); cl != "" {
+				cl := p.Oracle(c.Line, implOut[i])
+				if cl == "" && implOut[i] == "crash" {
+					// whatever a property's oracle looks at: a case that takes its (child) process down is a failure
+					cl = "the code under test does not bring the process down (unrecovered panic in a goroutine of the library, fatal runtime error, out of memory)"
+				}
+				if cl != "" {
 					nOracleFails++
 					key := ""
 					if p.FindingKey != nil {
